@@ -4,6 +4,7 @@ CONSTANTS
   MaxHops = 4
   MaxReq = 8
   LimitMax = 12
+  MaxDiscards = 2
   MaxScript = 6
   Deviations = {}
 CONSTRAINT HWM
